@@ -120,6 +120,9 @@ skip_array(const uint8_t * buf, const uint8_t * end)
 		/* Otherwise we should have a comma. */
 		if (*buf++ != ',')
 			return (end);
+
+		/* Skip optional whitespace after the comma. */
+		buf = skip_ws(buf, end);
 	} while (1);
 
 	/* NOTREACHED */
@@ -170,6 +173,9 @@ skip_object(const uint8_t * buf, const uint8_t * end)
 		/* Otherwise we should have a comma. */
 		if (*buf++ != ',')
 			return (end);
+
+		/* Skip optional whitespace after the comma. */
+		buf = skip_ws(buf, end);
 	} while (1);
 
 	/* NOTREACHED */
